@@ -198,7 +198,26 @@ func TestC11(t *testing.T) {
 				mi = 4 // more weight on the member that was itself made by adding a column (its column slice has a history)
 			}
 			tab, mn := tabs[mi], c11Names[mi]
-			switch rapid.IntRange(0, 23).Draw(t, "op") {
+			switch rapid.IntRange(0, 24).Draw(t, "op") {
+			case 24:
+				// clauses whose first sub-clause keeps every row: the next one works on the frame's own rows
+				k := rapid.IntRange(-2, 3).Draw(t, "nullandk")
+				shape := rapid.IntRange(0, 2).Draw(t, "nullandshape")
+				makers[i] = opMaker{desc: fmt.Sprintf("%s.Filter(And(Null-ish, i1 > %d)) shape %d", mn, k, shape), mk: func(f family) func() string {
+					return func() string {
+						leaf := qframe.Filter{Column: "i1", Comparator: ">", Arg: k}
+						var cl qframe.FilterClause
+						switch shape {
+						case 0:
+							cl = qframe.And(qframe.Null(), leaf)
+						case 1:
+							cl = qframe.And(qframe.And(qframe.Null()), leaf, qframe.Filter{Column: "id", Comparator: ">=", Arg: 0})
+						default:
+							cl = qframe.And(qframe.Or(qframe.Null()), qframe.Null(), leaf)
+						}
+						return snapFrame(f.members[mi].Filter(cl))
+					}
+				}}
 			case 23:
 				// one []Aggregation value (without As names) handed to several Aggregate calls
 				key := rapid.SampledFrom([]string{"e1", "b1", "s1"}).Draw(t, "aggskey")
